@@ -45,7 +45,7 @@ CHECKS = {
                  "(seed 16..64 B, 8-byte keyset id incl. high bit and multiples/neighbours of 2^31-1, counter in [0,2^31-1] biased to the edges) for NUT-13; "
                  "oracle = bit-for-bit equality with the independent math/big + HMAC-SHA512 reference pinned to the spec vectors. "
                  "non-trivial: h2c needing >=1 counter iteration; key set unsorted/non-standard or >10 keys; NUT-13 with id >= 2^31, counter >= 2^16 or a derived value with a leading zero byte; "
-                 "distinct = hash of the input. Native fuzz units (thorough, coverage-instrumented build): the same generators and oracles with Go's native fuzzer mutating the byte stream rapid draws from (rapid.MakeFuzz), i.e. steered by coverage of the code under test."),
+                 "distinct = hash of the input. Wallet unit: wallet histories (mint, send, receive, reclaim, melt) against honest mints that rotate keysets and restart; every output a wallet submits for signing in its counter-based flows must be the reference NUT-13 derivation of its mnemonic at some counter of the named keyset; non-trivial = history with at least one output compared. Native fuzz units (thorough, coverage-instrumented build): the same generators and oracles with Go's native fuzzer mutating the byte stream rapid draws from (rapid.MakeFuzz), i.e. steered by coverage of the code under test."),
         "technique": "property-based differential testing (rapid) against an independent spec-derived reference + native fuzzing",
         "level_text": ("Generated-input differential testing: every generated message / key set / (seed, id, counter) triple is run through gonuts and through an independent reference written from NUT-00/02/13 and BIP-32 with math/big and crypto/hmac; any bit difference fails. "
                        "Exploration is the right level: the functions are pure and total, so agreement on 10^4-10^5 inputs aimed at the edge regions (multi-iteration h2c, ids >= 2^63, id mod 2^31-1 neighbours, counters at 2^31-1, leading-zero derived keys) plus the spec vectors is what search can establish; it does not prove equality on all inputs."),
@@ -58,6 +58,7 @@ CHECKS = {
             rapid("keysetid", "^TestKeysetID$", 400, 20000),
             rapid("nut13", "^TestNut13$", 1200, 120000),
             rapid("p2pkkey", "^TestP2PKKey$", 200, 8000, qs=1, ts=4),
+        rapid("wallet", "^TestWalletDerivation$", 32, 1600, qs=8, ts=16),
             fuzz("fuzzh2c", "FuzzH2C", "300s"),
             fuzz("fuzz_nut13", "FuzzNut13", "150s"),
             fuzz("fuzz_keysetid", "FuzzKeysetID", "150s"),
